@@ -15,7 +15,8 @@ EXPLANATION = (
     "node-capable class the published paths/walks are condensed whenever the mode may be 'node' (k-models, greedy route, the four "
     "wrappers); (R5) per-path lists have one entry per layer and _remove_empty_* filters every per-path key that is published; (R6) paths "
     "start/end only where documented: the synthetic source/sink edges are added by the documented disjunctions and node mode maps declared "
-    "starts to 'v.0' and ends to 'v.1' (expansion naming scheme agrees with its reader).  "
+    "starts to 'v.0' and ends to 'v.1' (expansion naming scheme agrees with its reader); (R7) under a given weight superset the cap on non-empty paths is "
+    "the caller's k (taken before k is overwritten by the number of candidate weights) and the cap row is present.  "
     "NOT decided: that the solver returns a point satisfying the rows; simplicity of DAG paths and 'exactly k' follow from the rows."
 )
 DECIDED = ["path/walk-shape constraints present and complete", "synthetic endpoints never reach a public return value",
@@ -88,6 +89,9 @@ def check(prog: Program, rep):
     ns.node_results_condensed(prog, rep, "C01.R4")
     rep.rule("C01.R5", "arity of per-path lists", floor=10)
     ns.arity_rule(prog, rep, "C01.R5")
+    rep.rule("C01.R7", "never more than k paths: under given weights the cap on non-empty paths is the caller's k", floor=3)
+    from rules.providers import original_k_provider
+    original_k_provider(prog, rep, "C01.R7", ["kFlowDecomp", "kLeastAbsErrors", "kMinPathError"])
     rep.rule("C01.R6", "admissible endpoints: augmentation guards; node mode maps declared starts to the entry and ends to the exit endpoint", floor=6)
     from rules.c10 import augmentation_guards
     from rules.c11 import naming_rule
